@@ -329,6 +329,13 @@ func init() {
 			in.goPanic("Document.WriteTo(nil writer)")
 		}
 		ts := types.TypeString(w.T, nil)
+		if ts == "*compress/flate.Writer" {
+			// the serialisation is handed to the compressor (buffered until Flush / Close)
+			g := ghostOf(w.V)
+			c := serialise(in, a[0].(*Ptr))
+			g.Ghost["pending"] = smt.StrConcat(g.Ghost["pending"].(*smt.Term), c)
+			return Tuple{BLen(c), nilError()}
+		}
 		if ts != "*bytes.Buffer" && ts != "*strings.Builder" {
 			in.end("unmodelled", "etree Document.WriteTo a %s at %s", ts, in.where())
 		}
@@ -369,13 +376,19 @@ func init() {
 	}
 	models["(*encoding/xml.Decoder).Decode"] = func(in *Interp, fn *ssa.Function, a []Value) Value {
 		dp := a[0].(*Ptr)
-		src := ghostOf(dp.Obj.Ghost["src"].(Value))
-		if ghostKind(src) != "bytesreader" {
+		srcV := dp.Obj.Ghost["src"].(Value)
+		src := ghostOf(srcV)
+		var content *smt.Term
+		if ghostKind(src) == "bytesreader" {
+			content = in.stringOfBytes(src.Ghost["data"].(*SliceV))
+		} else if ifc, ok := srcV.(*Iface); ok && ifc != nil && ifc.T != nil && types.TypeString(ifc.T, nil) == "*bytes.Buffer" {
+			// decoding straight out of a bytes.Buffer: its current content
+			content = in.bufGet(ifc.V)
+		} else {
 			in.end("unmodelled", "xml.Decoder over reader kind %q at %s", ghostKind(src), in.where())
 		}
 		dt := derefType(fn.Signature.Recv().Type())
 		cr := in.load(dp).(*StructV).F[fieldIndex(dt, "CharsetReader")]
-		content := in.stringOfBytes(src.Ghost["data"].(*SliceV))
 		conv := false
 		if d := in.lookupDoc(content); d != nil && d.OtherEncoding && !isNilValue(cr) {
 			// the decoder hands the declared charset and its input to the installed CharsetReader: the bytes are
